@@ -447,6 +447,45 @@ def whereIn (dim : String) (vals : List (Option DimVal)) (k : DKey) : Bool :=
 def forcedPushdown (x : Ext) (parts : List (List PRow)) (t : QTree) (s : Src) : List FlatRow :=
   olo t.top.olo (parts.flatMap (fun p => runTree x (withOlo t (partOlo t.top.olo)) s p))
 
+/-! ## the sub-query protocol between leader and partitions
+
+`clusterSource.doIterate` resolves the IN-subqueries of the statement it sends (`planSubQueries`
+→ one result list per element of `query.WhereSubQueries`, in that order) and ships the lists
+with the statement; on the partition `planSubQueries` uses the shipped lists iff there is
+exactly one per IN-subquery of the statement (`len(opts.SubQueryResults) == len(subQueries)`),
+setting the i-th list on the i-th sub-query — otherwise it plans and runs the sub-queries
+itself, on the partition's own rows. -/
+
+abbrev InVals := List (Option DimVal)
+
+/-- the lists a partition filters with: the shipped ones when their number fits, else its own -/
+def partitionLists (shipped own : List InVals) : List InVals :=
+  if shipped.length = own.length then shipped else own
+
+/-- truth values of the IN conditions of a WHERE, slot by slot (`dims` = the outer dimension of
+    each IN-subquery in `WhereSubQueries` order) -/
+def slotFilters (dims : List String) (lists : List InVals) (k : DKey) : List Bool :=
+  List.zipWith (fun d l => whereIn d l k) dims lists
+
+/-- a WHERE clause as a function of its IN slots and the key (`comb` = the boolean structure
+    and the other conditions) -/
+def whereWith (comb : List Bool → DKey → Bool) (dims : List String) (lists : List InVals)
+    (k : DKey) : Bool := comb (slotFilters dims lists k) k
+
+/-- the table's own GROUP BY and the partition keys (`partitionKeysKept`, /repo d1dff43): the
+    partition of a point is a function of the stored row key iff the table keeps all dimensions
+    or every partition key is one of its GROUP BY dimensions -/
+def partitionKeysKept (tableGroupBy pk : List String) : Bool :=
+  tableGroupBy.isEmpty || (!pk.isEmpty && pk.all (fun k => tableGroupBy.contains k))
+
+/-- the key a table stores for a point -/
+def storedKey (tableGroupBy : List String) (k : DKey) : DKey :=
+  if tableGroupBy.isEmpty then k else k.filter (fun p => tableGroupBy.contains p.1)
+
+/-- `pushdownAllowed` with the table clause -/
+def pushdownAllowedT (tableGroupBy pk : List String) (t : QTree) : Bool :=
+  partitionKeysKept tableGroupBy pk && pushdownAllowed pk t
+
 /-! ## the textual view -/
 
 /-- the clauses of a SELECT as sqlparser renders them (`(*Select).Format`) -/
